@@ -102,9 +102,18 @@ def dag_spec(draw, max_models=5, kinds=None, with_thru=True, offsets=True, max_c
                 links.append([names[i], "o", c0, t0, "In"])
                 iname2 = f"i{len(ins[names[j]])}"
                 ins[names[j]].append(iname2)
+                # the branch of the input that is pulled first may carry a fixed delay of at most the consumer's smallest
+                # step: the shared pull-based output is then asked for T - d first and for T afterwards, and T' - d >= T at
+                # the next update - the requests stay monotone, so this is not F12. (Not with a late-starting producer: the
+                # delay adapter clamps to the producer's start, which may lie after T.)
+                dmax = min(steps[j])
+                first_delay = [["dfix", draw(st.integers(1, dmax))]] if "dfix" in kinds and not off and draw(st.integers(0, 2)) == 0 else []
                 for tn, inn in ((ta, iname), (tb, iname2)):
                     links.append([t0, "Out", draw(st.lists(adapter(pas), max_size=1)) if pas else [], tn, "In"])
-                    links.append([tn, "Out", draw(st.lists(adapter(pas), max_size=1)) if pas else [], names[j], inn])
+                    tail = (draw(st.lists(adapter(pas), max_size=1)) if pas else []) + (first_delay if tn == ta else [])
+                    links.append([tn, "Out", tail, names[j], inn])
+                if first_delay:
+                    excl.append("info:diamond-with-delayed-first-branch")
                 thrus.append((ta, i))
             elif how == 5:
                 # two pull-based components in a row: M_i -> Ta -> Tb -> M_j
